@@ -121,7 +121,10 @@ Inductive dload :=
                                       needs_recompaction is false), or - current loader only -
                                       a size word torn at EOF (silent; the flag is computed) *)
       (needs_recompaction : bool)
-| DUnsafe (why : nat) (* the C++ as written has undefined behaviour / aborts here:
+| DUnsafe (why : nat) (* the C++ has undefined behaviour / aborts here.  Only the reader BEFORE the
+                         fix "validate record sizes and ids when loading the deps log" ([RdOld])
+                         can return it; for the current reader ([RdCur]) it is proved
+                         unreachable (C13_depslog_bounds):
                          1 deps record of 4 or 8 bytes: deps_count < 0, new Node*[deps_count]
                            throws std::bad_array_new_length (uncaught: abort)
                          2 dep id with the sign bit set: nodes_[negative]
@@ -129,7 +132,7 @@ Inductive dload :=
                          4 out id = INT_MAX: signed overflow in out_id + 1 (then a 16 GiB resize)
                          5 path record whose path part is all NUL and 1 or 2 bytes long: reads buf[-1]
                          6 path record with size % 4 <> 0: misaligned unsigned load of the checksum
-                           (only when [strict_align]; benign on x86, reported by UBSan) *)
+                           (only with [RdOld true]; benign on x86, reported by UBSan) *)
 | DFuel.              (* fuel exhausted: unreachable, see load_deps_never_fuel *)
 
 (* take n l = Some (first n elements, rest); None when l is shorter: fread(buf, n, 1, f) < 1 *)
@@ -211,8 +214,14 @@ Inductive dec_res :=
 | RPath (p : bytes)
 | RDeps (out : N) (mtime : Z) (ins : list N).
 
-(* The body of the loop for one framed record; [buf] has exactly [size] bytes, 0 < size. *)
-Definition decode (strict_align : bool) (paths : list bytes) (is_deps : bool) (size : N)
+(* Which record validation: the code before the fix "validate record sizes and ids when
+   loading the deps log" ([RdOld strict_align]: strict_align = the misaligned checksum load of a
+   path record with size % 4 <> 0 counts as undefined behaviour), or the current code. *)
+Inductive rmode := RdOld (strict_align : bool) | RdCur.
+
+(* OLD reader.  The body of the loop for one framed record; [buf] has exactly [size] bytes,
+   0 < size. *)
+Definition decode_old (strict_align : bool) (paths : list bytes) (is_deps : bool) (size : N)
                   (buf : bytes) : dec_res :=
   if is_deps then
     if negb (size mod 4 =? 0) then RFail
@@ -256,6 +265,57 @@ Definition decode (strict_align : bool) (paths : list bytes) (is_deps : bool) (s
     | _ => RFail                              (* size < 4: path_size < 0 *)
     end.
 
+(* for (i...) { if (node_id < 0 || node_id >= (int)nodes_.size() || !nodes_[node_id]) read_failed } *)
+Definition check_ids_cur (n : N) (ins : list N) : bool :=
+  forallb (fun i => negb (two31 <=? i) && (i <? n)) ins.
+
+(* CURRENT reader.  Same index arithmetic, with the new validations in front; the accesses that
+   were undefined are still marked [RUnsafe] where the code would perform them, and proved
+   unreachable (decode_cur_safe).  Assumes nodes_.size() <= INT_MAX (a log with 2^31 path
+   records has at least 16 GiB). *)
+Definition decode_cur (paths : list bytes) (is_deps : bool) (size : N) (buf : bytes) : dec_res :=
+  if is_deps then
+    (* if ((size % 4) != 0 || size < 12) read_failed *)
+    if negb (size mod 4 =? 0) || (size <? 12) then RFail
+    else match words_of buf with
+         | out :: lo :: hi :: ins =>
+             (* if (out_id < 0 || out_id >= (int)nodes_.size()) read_failed *)
+             if (two31 <=? out) || (nlen paths <=? out) then RFail
+             else if check_ids_cur (nlen paths) ins
+                  then RDeps out (s64 (hi * two32 + lo)) ins
+                  else RFail
+         | _ => RUnsafe 1     (* fewer than three words: not reached, size >= 12 *)
+         end
+  else
+    match frev buf with
+    | c3 :: c2 :: c1 :: c0 :: rp =>
+        match rp with
+        | [] => RFail                         (* path_size = 0 *)
+        | _ :: _ =>
+            (* if (path_size <= 0 || (size % 4) != 0) read_failed *)
+            if negb (size mod 4 =? 0) then RFail
+            else
+              match strip3 rp with
+              | None => RUnsafe 5             (* not reached: path_size >= 4 *)
+              | Some rp' =>
+                  let path := frev rp' in
+                  let checksum := c0 + 256 * c1 + 65536 * c2 + 16777216 * c3 in
+                  if negb (s32 (lnot32 checksum) =? Z.of_N (nlen paths))%Z
+                     || mem_bytes path paths
+                  then RFail
+                  else RPath path
+              end
+        end
+    | _ => RFail                              (* size < 4: path_size < 0 *)
+    end.
+
+Definition decode (m : rmode) (paths : list bytes) (is_deps : bool) (size : N) (buf : bytes)
+  : dec_res :=
+  match m with
+  | RdOld strict_align => decode_old strict_align paths is_deps size buf
+  | RdCur => decode_cur paths is_deps size buf
+  end.
+
 (* Loop state: tables, [offset], total_dep_record_count, unique_dep_record_count *)
 Record lstate := mkL { l_s : dstate; l_off : N; l_total : N; l_unique : N }.
 
@@ -270,7 +330,7 @@ Definition l_add_deps (st : lstate) (o : N) (m : Z) (ins : list N) (size : N) : 
 Definition needs_recompaction (total unique : N) : bool :=
   (1000 <? total) && (unique * 3 <? total).
 
-Fixpoint load_loop (old strict_align : bool) (fuel : nat) (st : lstate) (x : bytes) : dload :=
+Fixpoint load_loop (old : bool) (m : rmode) (fuel : nat) (st : lstate) (x : bytes) : dload :=
   match fuel with
   | O => DFuel
   | S fuel' =>
@@ -282,11 +342,11 @@ Fixpoint load_loop (old strict_align : bool) (fuel : nat) (st : lstate) (x : byt
                    (needs_recompaction (l_total st) (l_unique st))
       | FFail => DOk (l_s st) (Some (N.to_nat (l_off st))) false
       | FRec is_deps size buf rest =>
-          match decode strict_align (d_paths (l_s st)) is_deps size buf with
+          match decode m (d_paths (l_s st)) is_deps size buf with
           | RFail => DOk (l_s st) (Some (N.to_nat (l_off st))) false
           | RUnsafe why => DUnsafe why
-          | RPath p => load_loop old strict_align fuel' (l_add_path st p size) rest
-          | RDeps o m ins => load_loop old strict_align fuel' (l_add_deps st o m ins size) rest
+          | RPath p => load_loop old m fuel' (l_add_path st p size) rest
+          | RDeps o mt ins => load_loop old m fuel' (l_add_deps st o mt ins size) rest
           end
       end
   end.
@@ -294,24 +354,31 @@ Fixpoint load_loop (old strict_align : bool) (fuel : nat) (st : lstate) (x : byt
 Definition l_init : lstate := mkL d_empty 16 0 0.
 
 (* [old = true]: the loader as it was before the torn-size-word fix (kept to document the
-   defect, see load_deps_old); [old = false]: the current code. *)
-Definition load_deps_ver (old strict_align : bool) (file : bytes) : dload :=
+   defect, see load_deps_old); [old = false]: the current code.  [m]: record validation before
+   / after the fix "validate record sizes and ids". *)
+Definition load_deps_ver (old : bool) (m : rmode) (file : bytes) : dload :=
   match take 16 file with
   | None => DBadHeader
   | Some (h, x) =>
-      if bytes_eqb h deps_header then load_loop old strict_align (S (length x)) l_init x
+      if bytes_eqb h deps_header then load_loop old m (S (length x)) l_init x
       else DBadHeader
   end.
 
+(* The CURRENT code.  [strict_align] is kept for the driver's sake and ignored: the current
+   reader rejects every record with size % 4 <> 0, so no misaligned load can happen and the
+   two variants coincide. *)
 Definition load_deps_gen (strict_align : bool) (file : bytes) : dload :=
-  load_deps_ver false strict_align file.
+  load_deps_ver false RdCur file.
 
-(* The entry point: every undefined behaviour counts (UBSan alignment check included). *)
+(* The entry point. *)
 Definition load_deps (file : bytes) : dload := load_deps_gen true file.
-(* What an x86 build without the alignment check does. *)
 Definition load_deps_x86 (file : bytes) : dload := load_deps_gen false file.
-(* The loader BEFORE the fix: 1-3 stray bytes of a size word at EOF are not truncated. *)
-Definition load_deps_old (file : bytes) : dload := load_deps_ver true true file.
+(* The ORIGINAL loader: before both fixes (1-3 stray bytes of a size word at EOF are not
+   truncated; no validation of sizes and ids; every undefined behaviour counted). *)
+Definition load_deps_old (file : bytes) : dload := load_deps_ver true (RdOld true) file.
+(* The reader before the validation fix (after the torn-size-word fix): the DUnsafe classes. *)
+Definition load_deps_rd_old (strict_align : bool) (file : bytes) : dload :=
+  load_deps_ver false (RdOld strict_align) file.
 
 (* ------------------------------------------------------------------------------------ *)
 (* Writer                                                                               *)
@@ -459,9 +526,9 @@ Definition recompact (live : bytes -> bool) (s : dstate) : bytes :=
    it), the RecordDeps calls, Close (which creates the file with a header even when nothing
    was recorded).  Result = the file content afterwards.  When the C++ crashes (DUnsafe,
    CUnsafe) the file is left as it is at that moment. *)
-Definition session_ver (old strict_align : bool) (live : bytes -> bool) (file : bytes)
+Definition session_ver (old : bool) (m : rmode) (live : bytes -> bool) (file : bytes)
                        (ops : list dop) : bytes :=
-  match load_deps_ver old strict_align file with
+  match load_deps_ver old m file with
   | DUnsafe _ | DFuel => file
   | DBadHeader =>
       (* file unlinked; fopen("ab") creates it; ftell == 0: header *)
@@ -480,7 +547,7 @@ Definition session_ver (old strict_align : bool) (live : bytes -> bool) (file : 
 
 Definition session_gen (strict_align : bool) (live : bytes -> bool) (file : bytes)
                        (ops : list dop) : bytes :=
-  session_ver false strict_align live file ops.
+  session_ver false RdCur live file ops.
 
 Definition session (live : bytes -> bool) (file : bytes) (ops : list dop) : bytes :=
   session_gen true live file ops.
@@ -491,7 +558,7 @@ Definition apply_ops (file : bytes) (ops : list dop) : bytes :=
 
 (* A session of a ninja built before the torn-size-word fix. *)
 Definition apply_ops_old (file : bytes) (ops : list dop) : bytes :=
-  session_ver true true (fun _ => true) file ops.
+  session_ver true (RdOld true) (fun _ => true) file ops.
 
 (* ninja -t recompact: Load then Recompact.  On a crash / failure of Recompact the (truncated)
    file stays.  Bad header: Load unlinks the file, Recompact writes <path>.recompact and then
@@ -573,7 +640,8 @@ Definition wf_ops (ops : list dop) : Prop :=
   forallb wf_op ops = true /\ N.of_nat (mentions ops) < kMaxIds.
 
 (* ------------------------------------------------------------------------------------ *)
-(* C13: a syntactic description of the files on which Load has no undefined behaviour    *)
+(* C13: a syntactic description of the files on which the OLD reader ([RdOld]) has no     *)
+(* undefined behaviour (the current reader has none on any file)                          *)
 
 (* path part of 1 or 2 bytes, all NUL (record size 5 or 6) *)
 Definition short_all_nul (buf : bytes) : bool :=
